@@ -749,3 +749,44 @@ Section RT.
     apply (P_Full e (Pexpr_all e Hwf) L F s g r HL Hf E HF HF).
   Qed.
 End RT.
+
+(* ---------------------------------------------------------------- layout independence *)
+(* the AST up to locations (and the unresolved-capture fields the parser always writes) *)
+Fixpoint erase_locs (e : expr) : expr :=
+  match e with
+  | EFalse | ENull | ETrue | EInt _ | EStr _ | ERegexCap _ => e
+  | EList es => EList (map erase_locs es)
+  | ESet es => ESet (map erase_locs es)
+  | EListComp a v _ x _ => EListComp (erase_locs a) v (0, 0) (erase_locs x) (0, 0)
+  | ESetComp a v _ x _ => ESetComp (erase_locs a) v (0, 0) (erase_locs x) (0, 0)
+  | ECapture n _ _ _ _ => ECapture n QZero u32_max u32_max (0, 0)
+  | EUnscoped n _ => EUnscoped n (0, 0)
+  | EScoped sc n _ => EScoped (erase_locs sc) n (0, 0)
+  | ECall f args => ECall f (map erase_locs args)
+  end.
+
+Lemma rloc_more_erase es : Forall (fun e => forall L p, erase_locs (rloc L p e) = erase_locs e) es ->
+  forall L i p, map erase_locs (rloc_more rloc L i p es) = map erase_locs es.
+Proof.
+  induction 1 as [|b es' Hb Hes' IH]; intros L i q; cbn [rloc_more map]; [reflexivity|]. rewrite Hb, IH. reflexivity.
+Qed.
+Lemma rloc_args_erase es : Forall (fun e => forall L p, erase_locs (rloc L p e) = erase_locs e) es ->
+  forall L i p, map erase_locs (rloc_args rloc L i p es) = map erase_locs es.
+Proof.
+  induction 1 as [|b es' Hb Hes' IH]; intros L i q; cbn [rloc_args map]; [reflexivity|]. rewrite Hb, IH. reflexivity.
+Qed.
+
+Lemma rloc_erase e : forall L p, erase_locs (rloc L p e) = erase_locs e.
+Proof.
+  induction e using expr_ind'; intros L p; cbn [rloc erase_locs]; try reflexivity.
+  - destruct es as [|a es]; [reflexivity|]. cbn [erase_locs map]. inversion H as [|? ? Ha Hes]; subst.
+    rewrite Ha, (rloc_more_erase es Hes). reflexivity.
+  - destruct es as [|a es]; [reflexivity|]. cbn [erase_locs map]. inversion H as [|? ? Ha Hes]; subst.
+    rewrite Ha, (rloc_more_erase es Hes). reflexivity.
+  - rewrite IHe1, IHe2. reflexivity.
+  - rewrite IHe1, IHe2. reflexivity.
+  - rewrite IHe. reflexivity.
+  - rewrite (rloc_args_erase args H). reflexivity.
+Qed.
+Lemma rloc_erase_indep L1 L2 p1 p2 e : erase_locs (rloc L1 p1 e) = erase_locs (rloc L2 p2 e).
+Proof. rewrite !rloc_erase. reflexivity. Qed.
